@@ -4027,6 +4027,12 @@ class ProfilingDataset(Dataset):
             yield x
 
     def __getitem__(self, item):
+        if not isinstance(item, (str, numbers.Integral)):
+            # A selection (slice, index list, ...), e.g. from the frozen copy
+            # of a reshuffle: build it on top of this node. Forwarding it to
+            # the input would count one hit, fetch nothing and hand out a
+            # dataset whose fetches bypass this node.
+            return super().__getitem__(item)
         start = self.timestamp()
         # Avoid context manager: https://stackoverflow.com/a/26156031/5766934
         self.hit_count[0] += 1
